@@ -99,6 +99,20 @@ func VerifyFunc(L *Loaded, fn *ssa.Function, con *FuncContract, opt runOpts) *Un
 		}
 	}()
 	e.safety = con == nil || len(con.safetyProps) > 0 || opt.sweep
+	if con != nil {
+		for _, cls := range [][]clause{con.requires, con.ensures} {
+			for _, cl := range cls {
+				if strings.Contains(cl.text, "log") {
+					e.useWriterLog = true
+				}
+			}
+		}
+		for _, a := range con.asserts {
+			if strings.Contains(a.cl.text, "log") {
+				e.useWriterLog = true
+			}
+		}
+	}
 	e.runBody(fn, con, ur)
 	ur.EncodeS = time.Since(t0).Seconds()
 	e.finish(ur, opt)
@@ -178,7 +192,7 @@ func (e *Enc) finish(ur *UnitResult, opt runOpts) {
 			continue
 		}
 		switch q.Kind {
-		case "ensures", "loop-entry", "loop-preserved", "callpre", "cover", "contract-target", "frame", "closure", "lemma":
+		case "ensures", "loop-entry", "loop-preserved", "callpre", "cover", "contract-target", "frame", "closure", "lemma", "assert":
 			ur.Props[q.Name] = con.props
 		default:
 			ur.Props[q.Name] = con.safetyProps
@@ -203,52 +217,93 @@ func (e *Enc) topCon() *FuncContract {
 	return e.curCon
 }
 
-// frameObligations (K3): every location not named by `assigns` and allocated at entry is unchanged at return.
-func (e *Enc) frameObligations(fr *Frame, con *FuncContract, args []Val, out *State, ur *UnitResult) {
-	tb := e.tb
+// frameAllow evaluates the `assigns` clause of a contract into allowed locations per register.
+type allowedLoc struct {
+	ref *Term
+	all bool  // whole row (elem registers)
+	idx *Term // single element
+}
+
+func (e *Enc) frameAllow(fr *Frame, con *FuncContract) (map[string][]allowedLoc, error) {
 	entry := &fr.entry
-	env := e.envForCall(fr.fn, args, nil, entry, entry)
-	// allowed locations per register
-	type allowed struct {
-		ref *Term
-		all bool  // whole row (elem registers)
-		idx *Term // single element
-		sub []step
-	}
-	allow := map[string][]allowed{}
+	env := e.envForCall(fr.fn, fr.args, nil, entry, entry)
+	allow := map[string][]allowedLoc{}
 	for _, cl := range con.assigns {
 		sv, err := env.evalAny(cl.expr)
+		if err == nil && sv.wlog {
+			for _, n := range []string{"W:len", "W:kind", "W:int", "W:str"} {
+				e.wReg(n)
+				allow[n] = append(allow[n], allowedLoc{ref: sv.t, all: true})
+			}
+			continue
+		}
 		if err != nil || sv.addr == nil {
-			e.contractError(fr, "assigns", fmt.Errorf("cannot evaluate `%s`: %v", cl.text, err))
-			return
+			return nil, fmt.Errorf("cannot evaluate `%s`: %v", cl.text, err)
 		}
 		a := sv.addr
 		switch {
 		case a.elem:
-			allow[e.elemReg(a.root).name] = append(allow[e.elemReg(a.root).name], allowed{ref: a.ref, all: sv.all, idx: a.idx})
+			allow[e.elemReg(a.root).name] = append(allow[e.elemReg(a.root).name], allowedLoc{ref: a.ref, all: sv.all, idx: a.idx})
 		default:
 			if u, ok := a.root.Underlying().(*types.Struct); ok {
 				s := e.structSortOf(a.root, u)
 				if len(a.path) > 0 && a.path[0].kind == stField {
 					r := e.fieldReg(s, u, a.path[0].field)
-					allow[r.name] = append(allow[r.name], allowed{ref: a.ref})
+					allow[r.name] = append(allow[r.name], allowedLoc{ref: a.ref})
 				} else {
 					for i := 0; i < u.NumFields(); i++ {
 						r := e.fieldReg(s, u, i)
-						allow[r.name] = append(allow[r.name], allowed{ref: a.ref})
+						allow[r.name] = append(allow[r.name], allowedLoc{ref: a.ref})
 					}
 				}
 			} else {
 				r := e.ptrReg(a.root)
-				allow[r.name] = append(allow[r.name], allowed{ref: a.ref})
+				allow[r.name] = append(allow[r.name], allowedLoc{ref: a.ref})
 			}
 		}
 	}
-	var names []string
-	for n := range out.heap {
-		names = append(names, n)
+	return allow, nil
+}
+
+// frameFormula: every location of register n that was allocated at entry and is not allowed is as at entry.
+func (e *Enc) frameFormula(fr *Frame, allow map[string][]allowedLoc, st *State, n string) *Term {
+	tb := e.tb
+	r := e.regs[n]
+	after := e.reg(st, r)
+	before := e.reg(&fr.entry, r)
+	if after == before {
+		return tb.True()
 	}
-	sort.Strings(names)
+	ref := tb.BoundVar("fr", RefSort)
+	if r.elem {
+		idx := tb.BoundVar("fi", "Int")
+		var ex []*Term
+		for _, a := range allow[n] {
+			if a.all {
+				ex = append(ex, tb.Eq(ref, a.ref))
+			} else {
+				ex = append(ex, tb.And(tb.Eq(ref, a.ref), tb.Eq(idx, a.idx)))
+			}
+		}
+		same := tb.Eq(tb.Select(tb.Select(after, ref), idx), tb.Select(tb.Select(before, ref), idx))
+		return tb.Forall([]*Term{ref, idx}, tb.Imp(tb.And(tb.Gt(ref, tb.Int(0)), tb.Not(tb.Or(ex...))), same))
+	}
+	var ex []*Term
+	for _, a := range allow[n] {
+		ex = append(ex, tb.Eq(ref, a.ref))
+	}
+	same := tb.Eq(tb.Select(after, ref), tb.Select(before, ref))
+	return tb.Forall([]*Term{ref}, tb.Imp(tb.And(tb.Gt(ref, tb.Int(0)), tb.Not(tb.Or(ex...))), same))
+}
+
+// frameObligations (K3): every location not named by `assigns` and allocated at entry is unchanged at return.
+func (e *Enc) frameObligations(fr *Frame, con *FuncContract, args []Val, out *State, ur *UnitResult) {
+	tb := e.tb
+	allow, err := e.frameAllow(fr, con)
+	if err != nil {
+		e.contractError(fr, "assigns", err)
+		return
+	}
 	if out.ep != fr.entry.ep {
 		// the heap was havocked wholesale somewhere: no frame can be proved
 		s := State{reach: out.reach, heap: map[string]*Term{}}
@@ -256,34 +311,15 @@ func (e *Enc) frameObligations(fr *Frame, con *FuncContract, args []Val, out *St
 		q.Text = "a call without contract or assigns clause makes the frame unprovable"
 		return
 	}
+	var names []string
+	for n := range out.heap {
+		names = append(names, n)
+	}
+	sort.Strings(names)
 	for _, n := range names {
-		r := e.regs[n]
-		after := out.heap[n]
-		before := e.reg(entry, r)
-		if after == before {
+		cond := e.frameFormula(fr, allow, out, n)
+		if tb.isTrue(cond) {
 			continue
-		}
-		ref := tb.BoundVar("fr", RefSort)
-		var cond *Term
-		if r.elem {
-			idx := tb.BoundVar("fi", "Int")
-			var ex []*Term
-			for _, a := range allow[n] {
-				if a.all {
-					ex = append(ex, tb.Eq(ref, a.ref))
-				} else {
-					ex = append(ex, tb.And(tb.Eq(ref, a.ref), tb.Eq(idx, a.idx)))
-				}
-			}
-			same := tb.Eq(tb.Select(tb.Select(after, ref), idx), tb.Select(tb.Select(before, ref), idx))
-			cond = tb.Forall([]*Term{ref, idx}, tb.Imp(tb.And(tb.Gt(ref, tb.Int(0)), tb.Not(tb.Or(ex...))), same))
-		} else {
-			var ex []*Term
-			for _, a := range allow[n] {
-				ex = append(ex, tb.Eq(ref, a.ref))
-			}
-			same := tb.Eq(tb.Select(after, ref), tb.Select(before, ref))
-			cond = tb.Forall([]*Term{ref}, tb.Imp(tb.And(tb.Gt(ref, tb.Int(0)), tb.Not(tb.Or(ex...))), same))
 		}
 		q := e.oblige("frame", regLabel(e, n), out, cond, token.NoPos)
 		q.Text = "only locations named by `assigns` (and fresh objects) may change: register " + regLabel(e, n)
